@@ -34,11 +34,15 @@ def history(rnd, length):
            ("assign", "nest", ("list", [V("a"), ("list", [I(7), V("in2")])]), "[[int...]...]"),
            ("assign", "ma", ("map", "str", "int", [(S("a"), V("in0")), (S("b"), V("in1"))])), ("assign", "mb", V("ma")),
            ("assign", "mc", ("mcall", V("ma"), "clone", []))]
+    # functions that CAPTURE a map / a list and index it (the compiler chooses map_op / vec_op from the captured variable's type)
+    out += [("def", "mget", [], "int?", [("return", ("mindex", V("ma"), S("a")))]),
+            ("def", "mput", [("v", "int")], "int", [("msetindex", V("ma"), S("k"), V("v")), ("mopindex", V("ma"), S("k"), "+", I(1)), ("return", ("mcall", V("ma"), "len", []))]),
+            ("def", "lget", [("i", "int")], "int", [("return", ("index", V("a"), "i"))])]
     maps = ["ma", "mb", "mc"]
     for _ in range(length):
         k = rnd.choice(["set", "set", "setvar", "op", "push", "len", "print", "printel", "alias", "clone", "join", "bump", "fresh", "same",
                         "is", "eq", "nest_set", "nest_read", "remove", "reverse", "symidx", "clone_push_eq", "lit_from_elems", "nest_chain",
-                        "map_pick", "map_twice", "filter_small",
+                        "map_pick", "map_twice", "filter_small", "cap_mget", "cap_mput", "cap_lget",
                         "mset", "mset", "mop", "mread", "mread", "mlen", "mcontains", "mremove", "mreplace", "mclear", "msetk", "mlit_from_elems", "mremove_or", "mreplace_get"])
         mx = V(rnd.choice(maps))
         key = S(rnd.choice(KEYS))
@@ -108,6 +112,12 @@ def history(rnd, length):
             # a list literal built from elements of other lists holds VALUES: later updates of the sources do not reach it
             out += [("assign", "lq", ("list", [("index", x, 0), ("index", y, 1)]), "[int...]"), ("setindex", x, 0, arg(rnd)), ("setindex", y, 1, arg(rnd)),
                     ("print", V("lq")), ("setindex", V("lq"), 0, I(77)), ("print", x)]
+        elif k == "cap_mget":
+            out.append(("print", ("call", "mget", [])))
+        elif k == "cap_mput":
+            out.append(("print", ("call", "mput", [arg(rnd)])))
+        elif k == "cap_lget":
+            out.append(("print", ("call", "lget", [I(rnd.randint(0, 1))])))
         elif k == "map_pick":
             # the callback returns an element of ANOTHER list: the mapped list holds values - later updates of the source do not reach it
             out += [("assign", "src", ("list", [arg(rnd), arg(rnd), I(6)]), "[int...]"), ("assign", "ix", ("list", [I(2), I(0), I(1)]), "[int...]"),
